@@ -7,6 +7,7 @@ use crate::json::{hex_short, J};
 use crate::prng::mix;
 use crate::refcodec::{layout_guided, tree_short, Node, SizeOpt};
 use crate::runner::{Case, PropDef};
+use crate::spec::Item;
 use crate::wr::{calls_from_tree, calls_json, run_calls, WCall, WRun};
 
 pub static DEF: PropDef = PropDef {
@@ -242,7 +243,137 @@ fn run(c: &mut Case) {
     if m >= 2 && (any_collapse || u + w > 0) {
         c.nontrivial(mix(gen::tree_fingerprint(&doc.tree), collapse_hash));
     }
-    if c.idx % 701 == 1 {
-        c.set_sample(J::obj().set("tree", J::s(tree_short(&doc.tree))).set("spec", doc.spec.to_json()).set("bytes", J::s(hex_short(&base.bytes, 200))).set("masters", J::u(m)).set("unknown", J::u(u)).set("widths", J::u(w)));
+    let sample_due = c.idx % 701 == 1;
+    if sample_due {
+        set_sample_c09(c, &doc, &base.bytes, m, u, w);
     }
+    // (e) the size option never decides whether a master item is accepted ("an explicit width and, like it, unknown size
+    // affect size fields only"): one master of a fresh document (half of them over specifications with recursive masters)
+    // is handed over as one Full item — well-formed, or with a nested master left open (also one of its own id), or with a
+    // stray End among its children — with the default option, an 8-byte width and unknown size, after the same accepted
+    // prefix of calls.  Whatever the writer decides, it has to decide the same three times.
+    if c.idx % 3 == 0 {
+        let o2 = DocOpts { p_width: 0, p_unknown: 0, raw: false, shaping: false, full_specs: c.rng.chance(1, 2) };
+        let d2 = gen_doc(&mut c.rng, c.tier, &o2);
+        d2.spec.install();
+        let mut count = 0u64;
+        let _ = calls_from_tree(&d2.tree, &mut |_| { count += 1; false }, false);
+        if count > 0 {
+            let target = c.rng.below(count);
+            let mut i = 0u64;
+            let calls = calls_from_tree(&d2.tree, &mut |_| { let y = i == target; i += 1; y }, false);
+            if let Some(pos) = calls.iter().position(|x| matches!(x, WCall::Write(Item::Full(..), _))) {
+                if let WCall::Write(Item::Full(id, kids0), _) = &calls[pos] {
+                    let id = *id;
+                    let mut kids = kids0.clone();
+                    let at = c.rng.urange(0, kids.len());
+                    let mut other: Option<Item> = None;
+                    let shape = match c.rng.below(8) {
+                        0 => "well-formed",
+                        6 => {
+                            // some master of the specification, allowed here or not, as a bare Start / an empty Full
+                            let ms = d2.spec.masters();
+                            other = Some(Item::Start(*c.rng.pick(&ms)));
+                            "some-master-start"
+                        }
+                        7 => {
+                            let ms = d2.spec.masters();
+                            other = Some(Item::Full(*c.rng.pick(&ms), vec![]));
+                            "some-master-empty-full"
+                        }
+                        1 | 2 => {
+                            if let Some(j) = kids.iter().position(|k| matches!(k, Item::Full(..))) {
+                                if let Item::Full(sid, sk) = kids[j].clone() {
+                                    kids.splice(j..j + 1, std::iter::once(Item::Start(sid)).chain(sk.into_iter()));
+                                }
+                                "nested-master-left-open"
+                            } else {
+                                kids.insert(at, Item::Start(id));
+                                "own-id-start-left-open"
+                            }
+                        }
+                        3 => {
+                            kids.insert(at, Item::Start(id));
+                            "own-id-start-left-open"
+                        }
+                        4 => {
+                            kids.insert(at, Item::End(id));
+                            "stray-own-end"
+                        }
+                        _ => {
+                            let ms = d2.spec.masters();
+                            kids.insert(at, Item::End(*c.rng.pick(&ms)));
+                            "stray-end"
+                        }
+                    };
+                    let item = other.unwrap_or(Item::Full(id, kids.clone()));
+                    let mut verdicts: Vec<(SizeOpt, bool, String)> = Vec::new();
+                    let mut unknown_run: Option<WRun> = None;
+                    for opt in [SizeOpt::Default, SizeOpt::Width(8), SizeOpt::Unknown] {
+                        let mut h: Vec<WCall> = calls[..pos].to_vec();
+                        h.push(WCall::Write(item.clone(), opt));
+                        let run = run_calls(&h, ScriptedWrite::new());
+                        c.eval();
+                        c.count("option_acceptance_probes");
+                        if run.results[..pos].iter().any(|r| !r.is_ok()) {
+                            verdicts.clear();
+                            break;
+                        }
+                        if let Some(crate::wr::WRes::Caught(cg)) = run.results.get(pos) {
+                            c.violation(format!("C09/option-acceptance/writer-{}", cg.sig()), cg.text(), doc_json(&d2).set("calls", calls_json(&h, 60)));
+                            verdicts.clear();
+                            break;
+                        }
+                        verdicts.push((opt, run.results[pos].is_ok(), run.results[pos].short()));
+                        if opt == SizeOpt::Unknown {
+                            unknown_run = Some(run);
+                        }
+                    }
+                    // (b'') "the deprecated unknown-size call equals the option-based one" — for whatever item it is given,
+                    // accepted or not: same verdict, same bytes in the destination after the call and after into_inner()
+                    if let (3, Some(ur)) = (verdicts.len(), &unknown_run) {
+                        let mut h: Vec<WCall> = calls[..pos].to_vec();
+                        h.push(WCall::DeprecatedUnknown(item.clone()));
+                        let dr = run_calls(&h, ScriptedWrite::new());
+                        c.eval();
+                        c.count("deprecated_vs_option_on_any_item");
+                        let what = if let Some(crate::wr::WRes::Caught(cg)) = dr.results.get(pos) {
+                            Some(format!("deprecated-{}", cg.sig()))
+                        } else if dr.results[pos].kind() != ur.results[pos].kind() {
+                            Some(format!("verdict-differs/option-{}/deprecated-{}", ur.results[pos].kind(), dr.results[pos].kind()))
+                        } else if dr.lens != ur.lens {
+                            Some("visibility-differs".to_string())
+                        } else if dr.fin.kind() != ur.fin.kind() || dr.bytes != ur.bytes {
+                            Some("final-bytes-differ".to_string())
+                        } else {
+                            None
+                        };
+                        if let Some(w) = what {
+                            c.violation(
+                                format!("C09/deprecated-vs-option/{}/{}", shape, w),
+                                format!("write_unknown_size(item) and write_advanced(item, unknown size) after the same calls: option form {} (into_inner {} , {} bytes), deprecated form {} (into_inner {}, {} bytes)", ur.results[pos].short(), ur.fin.short(), ur.bytes.len(), dr.results[pos].short(), dr.fin.short(), dr.bytes.len()),
+                                doc_json(&d2).set("clause", J::s("b'': deprecated call vs option form on any item")).set("calls", calls_json(&h, 60)).set("item_shape", J::s(shape)).set("bytes_option", J::s(hex_short(&ur.bytes, 300))).set("bytes_deprecated", J::s(hex_short(&dr.bytes, 300))),
+                            );
+                        }
+                    }
+                    if verdicts.len() == 3 {
+                        c.count(&format!("option_acceptance_{}_{}", shape, if verdicts[0].1 { "accepted" } else { "rejected" }));
+                        if verdicts.iter().any(|v| v.1 != verdicts[0].1) {
+                            let mut h: Vec<WCall> = calls[..pos].to_vec();
+                            h.push(WCall::Write(item.clone(), SizeOpt::Default));
+                            c.violation(
+                                format!("C09/option-changes-acceptance/{}/default-{}/width8-{}/unknown-{}", shape, if verdicts[0].1 { "ok" } else { "err" }, if verdicts[1].1 { "ok" } else { "err" }, if verdicts[2].1 { "ok" } else { "err" }),
+                                format!("the same Full item after the same calls is {} with the default option, {} with an 8-byte width and {} with unknown size", verdicts[0].2, verdicts[1].2, verdicts[2].2),
+                                doc_json(&d2).set("clause", J::s("e: acceptance independent of the size option")).set("calls", calls_json(&h, 60)).set("full_shape", J::s(shape)),
+                            );
+                        }
+                    }
+                }
+            }
+        }
+    }
+}
+
+fn set_sample_c09(c: &mut Case, doc: &crate::props::common::Doc, base_bytes: &[u8], m: usize, u: usize, w: usize) {
+    c.set_sample(J::obj().set("tree", J::s(tree_short(&doc.tree))).set("spec", doc.spec.to_json()).set("bytes", J::s(hex_short(base_bytes, 200))).set("masters", J::u(m)).set("unknown", J::u(u)).set("widths", J::u(w)));
 }
